@@ -100,6 +100,7 @@ type Event struct {
 
 // World is one instance of the real plugin plus everything around it.
 type World struct {
+	stsSets int // number of statefulset writes so far (see setApp)
 	Conf   Conf
 	Pools  []Pool // configuration in force
 	Rng    *rand.Rand
@@ -486,6 +487,12 @@ func (w *World) setApp(kind, ns, app string, replicas int32) {
 	case "sts":
 		o := &appsv1.StatefulSet{ObjectMeta: metav1.ObjectMeta{Name: app, Namespace: ns},
 			Spec: appsv1.StatefulSetSpec{Replicas: &replicas}}
+		w.stsSets++
+		if replicas == 1 && w.stsSets%2 == 0 {
+			// `.spec.replicas` unset means one replica (apps/v1 default; getStsReplicas handles nil): every second
+			// write of a single-replica statefulset in a history stores it that way (deterministic under replay)
+			o.Spec.Replicas = nil
+		}
 		if _, err := w.Kube.AppsV1().StatefulSets(ns).Update(ctx, o, metav1.UpdateOptions{}); err != nil {
 			w.Kube.AppsV1().StatefulSets(ns).Create(ctx, o, metav1.CreateOptions{})
 		}
@@ -681,7 +688,11 @@ func (w *World) ViewDigest() string {
 	var as []string
 	for _, o := range w.stsIdx.List() {
 		s := o.(*appsv1.StatefulSet)
-		as = append(as, fmt.Sprintf("sts/%s/%s=%d", s.Namespace, s.Name, *s.Spec.Replicas))
+		n := int32(1)
+		if s.Spec.Replicas != nil {
+			n = *s.Spec.Replicas
+		}
+		as = append(as, fmt.Sprintf("sts/%s/%s=%d", s.Namespace, s.Name, n))
 	}
 	for _, o := range w.dpIdx.List() {
 		s := o.(*appsv1.Deployment)
